@@ -456,9 +456,13 @@ func (e *encoderState) AppendRaw(k Kind, safeASCII bool, appendFn func([]byte) (
 		// Append directly into the encoder buffer by assuming that
 		// most of the time none of the characters need escaping.
 		b = append(b, '"')
-		if b, err = appendFn(b); err != nil {
+		// Only hand the unused capacity to appendFn so that whatever it
+		// returns can neither alter nor drop what has already been encoded.
+		var text []byte
+		if text, err = appendFn(b[len(b):]); err != nil {
 			return err
 		}
+		b = append(b, text...)
 		b = append(b, '"')
 
 		// Check whether we need to escape the string and if necessary
